@@ -495,3 +495,65 @@ def write_h5ad_multi(path, layers, obs_names=None, var_names=None):
             layers={k: enc(*v) for k, v in layers.items() if k is not None})
         a.write_h5ad(path)
     return path
+
+
+def trap_row_lists(rng, n, k=3):
+    """repeat-free, in-range row lists that LOOK like one ascending block from
+    the outside (first/last, min/max, length) but are not - aimed at shortcuts
+    that inspect only the ends of a selection.  Needs n >= 3."""
+    out = []
+    if n < 3:
+        return out
+    for _ in range(k):
+        style = rng.randrange(6)
+        ln = rng.randint(3, n)
+        a = rng.randint(0, n - ln)
+        b = a + ln - 1
+        block = list(range(a, b + 1))
+        if style == 0 and ln >= 4:
+            # permutation of a contiguous block, first and last fixed
+            mid = block[1:-1]
+            while mid == block[1:-1]:
+                rng.shuffle(mid)
+            rows = [a] + mid + [b]
+        elif style == 1:
+            # first/last exactly len-1 apart, interior arbitrary (also rows
+            # outside [first, last])
+            pool = [r for r in range(n) if r not in (a, b)]
+            mid = rng.sample(pool, ln - 2)
+            if mid == block[1:-1]:
+                mid = mid[::-1] if ln > 3 else mid
+            rows = [a] + mid + [b]
+        elif style == 2:
+            # rotated block
+            r = rng.randint(1, ln - 1)
+            rows = block[r:] + block[:r]
+        elif style == 3:
+            # fully shuffled block
+            rows = list(block)
+            rng.shuffle(rows)
+        elif style == 4:
+            # the same trap with the ends swapped (last = first - (len-1))
+            pool = [r for r in range(n) if r not in (a, b)]
+            rows = [b] + rng.sample(pool, ln - 2) + [a]
+        else:
+            # reversed block
+            rows = block[::-1]
+        out.append(rows)
+    return out
+
+
+def trap_index_lists(rng, top=12):
+    """lists with repeats for merge_index_list whose length / first / last /
+    min / max suggest one block although the set is not"""
+    a = rng.randint(0, top - 4)
+    return rng.choice([
+        [a, a, a + 2],                   # len == max-min+1, set has a gap
+        [a, a + 3, a + 1],               # first/last 1 apart... interior out
+        [a, a + 2, a + 2, a + 3],        # len == max-min+1 with a repeat
+        [a + 3, a + 1, a + 2, a],        # descending ends, full block
+        [a, a + 5, a + 2],               # ends len+... scattered
+        [a + 2, a, a + 1],               # rotated block
+        [a, a + 2, a + 1, a + 3, a + 9], # block plus an outlier at the end
+        [a + 9, a, a + 1, a + 2],        # outlier first
+    ])
